@@ -179,6 +179,25 @@ def impl(case, af):
             for (rank, rv), (s, h) in d.items():
                 res["sh"][(e["name"], str(t), str(rank), str(rv))] = (int(s), int(h))
     res["n_computes_total"] = int(w.n_computes())
+    # dense tile occupancy of every tensor for a few tile shapes: must be the size of the bounding box of the projected tile
+    from accelforge.frontend._workload_isl._symbolic import compute_dense_tile_occupancy, get_projection_expr
+    import random as _r
+    rr = _r.Random(len(case["einsums"]) * 7919 + sum(case["bounds"].values()))
+    res["occupancy_bad"] = []
+    for e in case["einsums"]:
+        ev = evars_of(case, e)
+        for n, o, acc in e["tensors"]:
+            pe = get_projection_expr(w.einsums[e["name"]], n)
+            for _ in range(3):
+                tile = {v: rr.randint(1, case["bounds"][v]) for v in ev}
+                got = int(compute_dense_tile_occupancy(pe, tile))
+                want = 1
+                for co, c in acc:
+                    # coordinates 0 .. (value of the rank expression at the tile's last index): same reading as the halo ("initial delta",
+                    # constant term included; see DESIGN C24, observation on constant offsets)
+                    want *= sum(co[v] * (tile[v] - 1) for v in ev) + c + 1
+                if got != want:
+                    res["occupancy_bad"].append(f"{e['name']}.{n} tile {tile}: dense tile occupancy {got}, the projected tile spans {want} coordinates")
     for t in sorted({n for e in case["einsums"] for n, _, _ in e["tensors"]}):
         try:
             res["size"][t] = int(w.get_tensor_size(t))
@@ -240,6 +259,7 @@ def compare(case, got, exp):
     if got["sh"] != exp["sh"]:
         diff = {k: (got["sh"].get(k), exp["sh"].get(k)) for k in set(got["sh"]) | set(exp["sh"]) if got["sh"].get(k) != exp["sh"].get(k)}
         bad.append(f"stride/halo differ: {diff}")
+    bad += got.get("occupancy_bad", [])[:3]
     if got.get("mutated"):
         bad.append("get_stride_and_halo_of_einsum left the caller's rank_variable_bounds modified")
     return bad
